@@ -124,7 +124,7 @@ def instance(cls, env):
 
 OPERAND_SLOTS = ["arith_left", "arith_right", "cmp_left", "cmp_right", "bool_right", "not", "neg", "in_term", "in_elem", "between_term", "between_lo",
                  "fn_arg", "case_when", "case_then", "case_else", "tuple_elem", "array_elem", "isnull", "where_root", "having_root", "on_root",
-                 "win_partition", "win_order", "select_arith", "select_fn_arg"]
+                 "win_partition", "win_order", "select_arith", "select_fn_arg", "insert_value", "insert_row_last", "update_set_value", "orderby_expr", "groupby_expr"]
 DEFINING = ["select", "select_last", "returning", "distinct_on"]
 # the same operand slots with the enclosing expression as a select-list item (the one clause rendered with with_alias=True), and with it as
 # an aliased select-list item: the operand's alias must not appear, the item's own alias exactly once
@@ -214,6 +214,16 @@ def statement(cls_name, pos, X, as_selectable=False):
         return base.select(X + 1)
     elif pos == "select_fn_arg":
         return base.select(fn.Coalesce(X, 0))
+    elif pos == "insert_value":
+        return Q.into(t).columns("c").insert(X)
+    elif pos == "insert_row_last":
+        return Q.into(t).columns("c", "d").insert((1, 2), (3, X))
+    elif pos == "update_set_value":
+        return Q.update(t).set(d, X).where(c == 1)
+    elif pos == "orderby_expr":
+        return base.select(d).orderby(X + 1)
+    elif pos == "groupby_expr":
+        return base.select(fn.Count("*")).groupby(fn.Coalesce(X, 0))
     else:
         raise HarnessError(pos)
     if in_select:
@@ -413,8 +423,16 @@ def check_groupby(tcls, cls_name, clause, defined):
     return ("ok", None)
 
 
-def sig_of(tcls, pos, kind):
+VALUES_POSITIONS = ("insert_value", "insert_row_last")
+
+
+def sig_of(tcls, pos, kind, cls_name="generic"):
     grp = pos if pos in DEFINING + ["from", "join", "groupby", "orderby"] else "operand"
+    if kind == "leaked" and pos in VALUES_POSITIONS:
+        # one root cause for every term class: the VALUES clause asks its terms for their alias - unless the class prints it everywhere anyway
+        r = check_cell(tcls, cls_name, "cmp_left", "as_")
+        if not (r[0] == "viol" and r[1] == "leaked"):
+            return mksig("values_clause", "leaked")
     if kind == "leaked":
         # one root cause per class: its get_sql appends the alias whatever the context says
         return mksig(c01_defining(tcls), "leaked")
@@ -458,7 +476,7 @@ def check_case(case):
         r = check_cell(tcls, case["cls"], case["pos"], "as_", case.get("mode", "ctx"))
         pos = case["pos"]
     if r[0] == "viol":
-        return [(sig_of(tcls, pos, r[1]), r[2])]
+        return [(sig_of(tcls, pos, r[1], case["cls"]), r[2])]
     return []
 
 
@@ -491,7 +509,7 @@ def run_shard(shard):
             continue
         col.case(case, True, classes=("pos:" + pos, "mode:" + mode), sample=dict(case, sql=_sample_sql(tcls, cn, pos)) if len(col.samples) < 4 else None)
         if r[0] == "viol":
-            col.violation(sig_of(tcls, pos, r[1]), case, r[2])
+            col.violation(sig_of(tcls, pos, r[1], cn), case, r[2])
     for tcls in term_classes():
         if tcls.__name__ in NO_ALIAS:
             continue
